@@ -186,3 +186,15 @@ m("c19-static-string-scratch-in-thdm-problems", "C19", 1, [("src/THDM/THDM_probl
    "std::string THDM_problems::get_problems() const\n{\n   std::ostringstream ostr;\n   print_problems(ostr);\n   return ostr.str();\n}",
    "std::string THDM_problems::get_problems() const\n{\n   static std::string buf; // keeps its capacity between calls\n   std::ostringstream ostr;\n   print_problems(ostr);\n   buf = ostr.str();\n   return buf;\n}")],
   "function-local static std::string assigned and copied by all callers (accesses inside libstdc++.so)")
+
+# ----------------------------------------------------------------------------- specificity of the process-reuse handling
+m("c14-warn-only-once-per-process", "C14", 0, [("src/gm2_slha_io.cpp",
+   "   default:\n      WARNING(\"Unrecognized entry in block GM2CalcConfig: \" << key);\n      break;",
+   "   default: {\n      // one warning per process is enough\n      static bool warned = false;\n      if (!warned) { WARNING(\"Unrecognized entry in block GM2CalcConfig: \" << key); warned = true; }\n      break;\n   }")],
+  "state kept for the life of a process by the command-line program (warn once): every real invocation is a fresh process, so the property holds; "
+  "the in-process workers execute thousands of runs per process and must not turn this into an alarm")
+
+m("c17-per-thread-scratch-sm-reset-each-call", "C17", 0, [("src/THDM/THDM_c.cpp",
+   "gm2calc::SM convert_to_SM(const ::gm2calc_SM* sm)\n{\n   gm2calc::SM s;\n",
+   "gm2calc::SM convert_to_SM(const ::gm2calc_SM* sm)\n{\n   static thread_local gm2calc::SM scratch;\n   scratch = gm2calc::SM(); // start from the defaults every time\n   gm2calc::SM& s = scratch;\n")],
+  "thread_local scratch object that is reset to the defaults on every call: property holds")
